@@ -3,6 +3,8 @@
 
 PARTIAL = 'The property as a whole is NOT proved; the obligations cover only the functions listed.'
 
+from . import mech
+
 PROPS = {
     'C02': {
         'units': ['paths'],
@@ -38,5 +40,16 @@ PROPS = {
         'units': ['srcloc'],
         'decided': 'Srcloc arithmetic: advance follows the byte (newline, tab stop, other), combine/ext start at the earlier start and never reach beyond the hull of their arguments, add_onto/ending/len/src_location_min/max',
         'not_covered': ['reader state invariant of parse_sexp_step (all stored locations lie in [start, cursor])', 'token extents', 'byte-at-a-time == whole', 'compiler-generated locations'],
+    },
+    'C20': {
+        'units': ['tables'],
+        'decided': 'the operator tables, extracted as data each run: opcodes pairwise distinct and names pairwise distinct (so opcode->name and name->opcode of each version are mutually inverse), FROM/TO builders of each version select the same rows, versions only add rows, keyword_from_atom/keyword_to_atom pick the same table, every prims() operator has the same canonically encoded opcode in KW_PAIRS and vice versa, the stepping evaluator\'s special-cased opcodes (q a i c f r) are the classic ones',
+        'not_covered': ['that clvmr implements each opcode (dispatch is outside the tables)', 'OriginalDialect / ChiaDialect flag selection in stage_0'],
+    },
+    'C05': {
+        'kani': [{'name': 'guard_restores_mode', 'complete': True, 'claim': 'for every (initial, a, b, early-return) the per-thread integer-conversion mode after nested NewStyleIntConversion guards equals the mode before them'}],
+        'mechanical': [{'name': 'int_mode_frame', 'fn': mech.frame_int_mode, 'claim': 'the mode cell is written only by the guard constructor and its Drop'}],
+        'decided': 'one clause only: the per-thread integer-conversion mode is restored by the RAII guard on every exit path (success, early error return), so an earlier compilation in another dialect or a failed one cannot leak its mode',
+        'not_covered': ['independence from the gensym counter ARGNAME_CTR (relational, whole compiler)', 'independence from HashMap iteration order / hash seeds', 'threads', 'byte-identical output as such'],
     },
 }
